@@ -589,6 +589,16 @@ def blocks_rule(ctx):
                 idx = s['rv']['fields'].index('current_block_len')
                 o = origin(new, s['rv']['ops'][idx])
                 stored = o.params() == {2} and not o.has_arith()
+    # ... and it is written whenever the stored count is not zero: the only guard on the way to the header write is
+    # `min_len > 0` (`!= 0`, `>= 1`); under any stricter test a stored count of 1 lets the first element out with no header
+    gok = bool(w)
+    for bb, t in w:
+        gs = [g for g in cmp_guards(new, bb) if not g.get('mirrored')]
+        fine = [g for g in gs if g['l'].params() == {2} and not g['l'].has_arith() and not g['l'].call_names() and not g['r'].params() and
+                ((g['op'] in ('Gt', 'Ne') and g['r'].consts() == {0}) or (g['op'] == 'Ge' and g['r'].consts() == {1}))]
+        gok = gok and len(gs) == len(fine)
+    ctx.ob('BLOCKS', 'new/header-written-whenever-count-stored', gok, short_loc(new.span),
+           'the first block header is written under `min_len > 0` and nothing stricter: %s' % gok)
     ctx.ob('BLOCKS', 'new/advertised-equals-stored', okw and stored, short_loc(new.span),
            'header count = try_into(min_len): %s; stored count = min_len: %s' % (okw, stored))
 
